@@ -63,6 +63,47 @@ def run(ctx):
                                 "cut": k, "outcome": list(outcome)})
                 elif r.random() < (0.02 if n > 40 else 0.08):
                     sample_cases.append({"cls": idx, "input": data[:k], "dec": ("err", "EUnderflow")})
+    # large length-prefixed fields (beyond typical buffer sizes), in particular as the last field
+    from ..values import describe
+    big_targets = []
+    for idx in range(n_schema):
+        descs = [d for d in describe(classes[idx]) if d.tag is None]
+        for pos, d in enumerate(descs):
+            if d.ent is None and not d.array and d.kafka in ("bytes", "records", "string"):
+                big_targets.append((idx, d.name, pos == len(descs) - 1))
+    r.shuffle(big_targets)
+    big_targets.sort(key=lambda t: not t[2])
+    n_big = 0
+    for idx, fname, is_last in big_targets[: (40 if ctx["tier"] == "quick" else 400)]:
+        cls = classes[idx]
+        val = gen.entity(cls)
+        names = [d.name for d in describe(cls)]
+        fi = names.index(fname)
+        d = describe(cls)[fi]
+        size = r.choice([8191, 8193, 10000, 16385, 20000]) if d.kafka != "string" or cls.__flexible__ else r.choice([8193, 10000, 20000])
+        val[1][fi] = ("str", b"s" * size) if d.kafka == "string" else ("bytes", bytes(r.getrandbits(8) for _ in range(64)) * (size // 64) + bytes(size % 64))
+        enc = cc.impl_encode(cls, to_py(cls, val))
+        if enc[0] != "ok":
+            continue
+        data = enc[1]
+        n = len(data)
+        n_big += 1
+        n_inst += 1
+        cuts = sorted(set(list(range(0, 40)) + list(range(n - 80, n)) + [r.randrange(n) for _ in range(60)]
+                         + [c for b in (8192, 16384) for c in range(b - 3, b + 40) if c < n]))
+        reader = entity_reader(cls)
+        for k in cuts:
+            total_prefixes += 1
+            src = StrictSource(data[:k])
+            try:
+                reader(src)
+                outcome = ("value",)
+            except Exception as e:  # noqa
+                outcome = ("err", cc.err_name(e), type(e).__name__)
+            if outcome[0] != "err" or outcome[1] != "EUnderflow":
+                bad.append({"class": _codec.cls_name(classes, idx), "cls": idx, "value": ("ent", [("str", b"<big instance>")]),
+                            "encoding": data[:64].hex() + "...", "encoding_length": n, "big_field": fname, "cut": k,
+                            "outcome": list(outcome)})
     # the model's verdict is constant by theorem; it is still evaluated on a sample
     sample_cases = sample_cases[:3000]
     failing, errors = cc.run_coq_cases(ctx["build"], "C06", sample_cases, kind="dcase")
@@ -85,7 +126,7 @@ def run(ctx):
         "rule": f"every cut position 0..len-1 of each generated instance's encoding (all cuts up to {max_exhaustive} bytes, "
                 "128 boundary + 64 random cuts beyond) through a source object that only supports read(n); every "
                 "(instance, cut) pair is distinct and non-trivial",
-        "instances": n_inst, "classes": n_schema, "model_sample": len(sample_cases),
+        "instances": n_inst, "big_field_instances": n_big, "classes": n_schema, "model_sample": len(sample_cases),
         "samples": [{"class": _codec.cls_name(classes, c["cls"]), "prefix": c["input"].hex()} for c in sample_cases[:3]],
         "property_failures_on_implementation": len(bad), "correspondence_disagreements": len(failing),
     }
